@@ -126,7 +126,23 @@ def agent(db):
     return 0
 
 
+def crashtxn(db, mode, cache, sync):
+    """the transaction whose crash points C09 enumerates: an in-place, fixed-width UPDATE of every row, with a
+    tiny page cache so that dirty pages spill to the database file before the commit"""
+    con = sqlite3.connect(db, isolation_level=None, timeout=0)
+    con.execute("PRAGMA journal_mode=%s" % mode)
+    con.execute("PRAGMA cache_size=%d" % cache)
+    con.execute("PRAGMA synchronous=%s" % sync)
+    con.execute("BEGIN IMMEDIATE")
+    con.execute("UPDATE t SET v = v + 1000")
+    con.execute("COMMIT")
+    con.close()
+    return 0
+
+
 if __name__ == "__main__":
+    if sys.argv[1] == "crashtxn":
+        sys.exit(crashtxn(sys.argv[2], sys.argv[3], int(sys.argv[4]), sys.argv[5] if len(sys.argv) > 5 else "FULL"))
     if sys.argv[1] == "agent":
         sys.exit(agent(sys.argv[2]))
     if sys.argv[1] == "commit":
